@@ -20,6 +20,7 @@ import (
 //   spec.kids[]        {apiVersion, kind, name, ns?, value, metaExtra?{...copied into metadata}, status?(copied as the child's status)}
 //   spec.statusExtra   copied verbatim into the returned status
 //   spec.rawStatus     returned as the status as-is; spec.nullStatus / spec.omitStatus: null / no status
+//   spec.echoAnnotations true: every desired child also carries the annotations of the child observed under its name
 //   spec.resyncAfter   number: answered as resyncAfterSeconds (spec.template.resyncAfter: revisioned variant)
 //   spec.template.finalize  overrides spec.finalize per parent revision; "keep" = finalized at once, children stay
 //   spec.finalize      "all" (default: drop everything at once) | "step" (one child per call)
@@ -121,6 +122,45 @@ func relName(parent Obj, kid Obj) string {
 // Expand is the generic program. root is "parent"/"children" for composite requests and
 // "object"/"attachments" for decorator requests.
 func Expand(req Obj, rootField, childrenField, responseChildrenField string) Obj {
+	resp := expandCore(req, rootField, childrenField, responseChildrenField)
+	parent, _ := req[rootField].(map[string]interface{})
+	if echo, _ := Nested(parent, "spec", "echoAnnotations"); echo == true {
+		// a hook that builds each desired child from the child it observed: whatever annotations the
+		// observed child carries (metacontroller's own last-applied record among them) come back in
+		// the desired child, under the annotations the hook sets itself
+		observed := observedIndex(req, childrenField)
+		list, _ := resp[responseChildrenField].([]interface{})
+		for _, c := range list {
+			child, _ := c.(map[string]interface{})
+			if child == nil {
+				continue
+			}
+			apiVersion, _ := child["apiVersion"].(string)
+			kind, _ := child["kind"].(string)
+			name := Name(child)
+			if NS(parent) == "" && NS(child) != "" {
+				name = NS(child) + "/" + name
+			}
+			obs := observed[kind+"."+apiVersion][name]
+			if obs == nil {
+				continue
+			}
+			m, _ := child["metadata"].(map[string]interface{})
+			own, _ := m["annotations"].(map[string]interface{})
+			merged := Obj{}
+			for k, v := range Annotations(obs) {
+				merged[k] = v
+			}
+			for k, v := range own {
+				merged[k] = v
+			}
+			m["annotations"] = merged
+		}
+	}
+	return resp
+}
+
+func expandCore(req Obj, rootField, childrenField, responseChildrenField string) Obj {
 	parent, _ := req[rootField].(map[string]interface{})
 	observed := observedIndex(req, childrenField)
 	spec, _ := parent["spec"].(map[string]interface{})
@@ -327,6 +367,9 @@ func SpecifiedLeaves(o Obj) map[string]interface{} {
 			walk("/"+k, v)
 		}
 	}
+	// metacontroller's own last-applied record is not a field a hook can specify: when a hook echoes
+	// it back it is dropped from the desired object (documented), and the record is rewritten
+	delete(out, "/metadata/annotations/metacontroller.k8s.io/last-applied-configuration")
 	return out
 }
 
